@@ -563,7 +563,10 @@ class Interp:
         if name == 'enumerate':
             it = self.iterate(args[0], node)
             if it is not None:
-                start = args[1].v if len(args) > 1 and isinstance(args[1], Const) else 0
+                st_ = args[1] if len(args) > 1 else kwargs.get('start')
+                if st_ is not None and not (isinstance(st_, Const) and isinstance(st_.v, int)):
+                    return Unknown('enumerate with a non-constant start')
+                start = st_.v if st_ is not None else 0
                 return Tup([Tup([Const(i + start), x]) for i, x in enumerate(it)], 'enumerate')
             return Unknown('enumerate')
         if name == 'reversed':
